@@ -54,6 +54,12 @@ func init() {
 				for _, n := range []int{16, 8, 4, 2} {
 					cs = append(cs, ev.MkCase("round", c19Round{N: n, Rep: rep, Seed: seed}))
 				}
+				if rep%25 == 0 {
+					// one BMC that has stopped answering, others that are fine
+					for _, call := range []string{"sdr", "session", "suites", "dcmi"} {
+						cs = append(cs, ev.MkCase("hol", c19HOL{Call: call, Seed: seed + int64(rep)}))
+					}
+				}
 			}
 			return cs
 		},
@@ -393,7 +399,148 @@ func c19Digest(t []string) string {
 	return fmt.Sprintf("%x", h[:8])
 }
 
+// c19HOL is a head-of-line case: one goroutine is stuck in a call to a BMC that
+// has stopped answering (until its per-request timeout), while others make the
+// same kind of call to healthy BMCs with a deadline far shorter than that
+// timeout and far longer than the call needs. Alone they succeed; they must
+// succeed here as well.
+type c19HOL struct {
+	Call string // sdr | session | suites | dcmi
+	Seed int64
+}
+
+func c19RunHOL(run *ev.Run, h c19HOL, c ev.Case) {
+	run.Eval(1)
+	mk := func(id int, stuck bool) (st *bmc.V2SessionlessTransport, cfg refbmc.Config, done func(), err error) {
+		r := rng(h.Seed+int64(id)*77, "c19hol")
+		cfg = defaultCfg(r)
+		b := refbmc.New(cfg)
+		f1, _, _ := genFSR(r, 3, 6)
+		f2, _, _ := genFSR(r, 3, 5)
+		repo := refbmc.NewRepo([]refbmc.SDRRecord{{ID: 1, Type: 1, Body: f1}, {ID: 2, Type: 1, Body: f2}}, 5000)
+		cssrv := &refbmc.CipherSuiteServer{Channel: 1, Data: refbmc.EncodeSuiteRecords([]refbmc.SuiteRecord{{ID: 3, Auth: 1, Integs: []byte{1}, Confs: []byte{1}}, {ID: 17, Auth: 3, Integs: []byte{4}, Confs: []byte{1}}})}
+		dcm := &refbmc.DCMISensorInfo{PageSize: 3, IDs: map[[2]byte][]uint16{{1, 0x40}: {1, 2, 3}, {1, 0x41}: {9}, {1, 0x42}: {}}}
+		b.Handler = refbmc.Chain(repo.Handle, cssrv.Handle, dcm.Handle, refbmc.Fixed(6, 0x3c, 0, nil))
+		srv, lerr := udpbmc.Listen(b)
+		if lerr != nil {
+			return nil, cfg, nil, lerr
+		}
+		if stuck {
+			srv.SetFault(func(n int, req, reply []byte) ([][]byte, time.Duration) {
+				if e := b.Last(); e != nil && (e.Kind == "session-ipmi" && (e.NetFn == 0x0a && e.Cmd == 0x23 || e.NetFn == 0x2c) || e.Kind == "rakp1" && h.Call == "session" || e.Kind == "sessionless-ipmi" && e.Cmd == 0x54 && h.Call == "suites") {
+					return nil, 0 // this BMC has stopped answering
+				}
+				return [][]byte{reply}, 0
+			})
+		}
+		st, err = bmc.DialV2(srv.Addr(), bmc.WithTimeout(3*time.Second))
+		if err != nil {
+			srv.Close()
+			return nil, cfg, nil, err
+		}
+		return st, cfg, func() { st.Close(); srv.Close() }, nil
+	}
+	call := func(ctx context.Context, st *bmc.V2SessionlessTransport, cfg refbmc.Config, setup context.Context) (string, error) {
+		opts := &bmc.V2SessionOpts{SessionOpts: bmc.SessionOpts{Username: cfg.Username, Password: cfg.Password, MaxPrivilegeLevel: ipmi.PrivilegeLevelAdministrator}, CipherSuites: []ipmi.CipherSuite{ipmi.CipherSuite3}}
+		switch h.Call {
+		case "suites":
+			v, err := bmc.RetrieveSupportedCipherSuites(ctx, st)
+			return fmt.Sprint(len(v)), err
+		case "session":
+			s, err := st.NewV2Session(ctx, opts)
+			if err != nil {
+				return "", err
+			}
+			return "session", s.Close(ctx)
+		}
+		s, err := st.NewV2Session(setup, opts)
+		if err != nil {
+			return "", fmt.Errorf("setup: %w", err)
+		}
+		if h.Call == "dcmi" {
+			v, err := dcmi.GetSensorInfo(ctx, s)
+			if err != nil {
+				return "", err
+			}
+			return fmt.Sprint(v.Inlet, v.CPU, v.Baseboard), nil
+		}
+		m, err := bmc.RetrieveSDRRepository(ctx, s)
+		return fmt.Sprint(len(m)), err
+	}
+	setup, cancelSetup := context.WithTimeout(context.Background(), 20*time.Second)
+	defer cancelSetup()
+	stuckST, stuckCfg, stuckDone, err := mk(0, true)
+	if err != nil {
+		run.Inconclusive("hol setup: " + err.Error())
+		return
+	}
+	defer stuckDone()
+	const healthy = 3
+	type res struct {
+		v   string
+		err error
+		d   time.Duration
+	}
+	results := make([]res, healthy)
+	var wg sync.WaitGroup
+	wg.Add(1)
+	go func() {
+		defer wg.Done()
+		ctx, cancel := context.WithTimeout(context.Background(), 3500*time.Millisecond)
+		defer cancel()
+		safe(func() { call(ctx, stuckST, stuckCfg, setup) })
+	}()
+	time.Sleep(300 * time.Millisecond) // the stuck call is under way
+	for i := 0; i < healthy; i++ {
+		wg.Add(1)
+		go func(i int) {
+			defer wg.Done()
+			st, cfg, done, err := mk(i+1, false)
+			if err != nil {
+				results[i].err = err
+				return
+			}
+			defer done()
+			ctx, cancel := context.WithTimeout(context.Background(), 1500*time.Millisecond)
+			defer cancel()
+			t0 := time.Now()
+			safe(func() { results[i].v, results[i].err = call(ctx, st, cfg, setup) })
+			results[i].d = time.Since(t0)
+		}(i)
+	}
+	wg.Wait()
+	run.Nontrivial("hol|" + h.Call)
+	run.Event("head-of-line-cases", 1)
+	for i, r := range results {
+		if r.err == nil {
+			continue
+		}
+		// the same call alone
+		st, cfg, done, err := mk(i+1, false)
+		if err != nil {
+			run.Inconclusive("hol solo setup: " + err.Error())
+			return
+		}
+		ctx, cancel := context.WithTimeout(context.Background(), 1500*time.Millisecond)
+		v, serr := call(ctx, st, cfg, setup)
+		cancel()
+		done()
+		if serr != nil {
+			run.Inconclusive(fmt.Sprintf("head-of-line case %s: the healthy call fails alone as well (%v)", h.Call, serr))
+			return
+		}
+		run.Violation("C19:interference:blocked-by-another-connection", fmt.Sprintf("while another goroutine's %s call waited for a BMC that has stopped answering, the same call to a healthy BMC failed after %v with %v; alone it returns %q", h.Call, r.d, r.err, v), c, nil)
+		return
+	}
+}
+
 func c19Exec(run *ev.Run, c ev.Case) {
+	if c.Kind == "hol" {
+		var h c19HOL
+		c.Decode(&h)
+		c19RunHOL(run, h, c)
+		return
+	}
 	var rd c19Round
 	c.Decode(&rd)
 	run.Eval(rd.N)
